@@ -126,15 +126,18 @@ def finalizeCommon (n : Nat) (x : State) : St :=
   let s := if !x.buffer.isEmpty then updateRemainder x else x.st
   rounds n s
 
+/-- the 64-bit digest of the final lane state -/
+def out64 (s : St) : BitVec 64 := s.v0.l0 + s.v1.l0 + s.mul0.l0 + s.mul1.l0
+
+/-- the 128-bit digest of the final lane state -/
+def out128 (s : St) : BitVec 64 × BitVec 64 :=
+  (s.v0.l0 + s.mul0.l0 + s.v1.l2 + s.mul1.l2, s.v0.l1 + s.mul0.l1 + s.v1.l3 + s.mul1.l3)
+
 /-- `PortableHash::finalize64` -/
-def finalize64 (x : State) : BitVec 64 :=
-  let s := finalizeCommon 4 x
-  s.v0.l0 + s.v1.l0 + s.mul0.l0 + s.mul1.l0
+def finalize64 (x : State) : BitVec 64 := out64 (finalizeCommon 4 x)
 
 /-- `PortableHash::finalize128` -/
-def finalize128 (x : State) : BitVec 64 × BitVec 64 :=
-  let s := finalizeCommon 6 x
-  (s.v0.l0 + s.mul0.l0 + s.v1.l2 + s.mul1.l2, s.v0.l1 + s.mul0.l1 + s.v1.l3 + s.mul1.l3)
+def finalize128 (x : State) : BitVec 64 × BitVec 64 := out128 (finalizeCommon 6 x)
 
 /-- `PortableHash::module_reduction(a3_unmasked, a2, a1, a0) -> (low, high)` -/
 def moduleReduction (a3u a2 a1 a0 : BitVec 64) : BitVec 64 × BitVec 64 :=
@@ -143,12 +146,14 @@ def moduleReduction (a3u a2 a1 a0 : BitVec 64) : BitVec 64 × BitVec 64 :=
   let low := a0 ^^^ (a2 <<< 1) ^^^ (a2 <<< 2)
   (low, high)
 
-/-- `PortableHash::finalize256` -/
-def finalize256 (x : State) : BitVec 64 × BitVec 64 × BitVec 64 × BitVec 64 :=
-  let s := finalizeCommon 10 x
+/-- the 256-bit digest of the final lane state -/
+def out256 (s : St) : BitVec 64 × BitVec 64 × BitVec 64 × BitVec 64 :=
   let a := moduleReduction (s.v1.l1 + s.mul1.l1) (s.v1.l0 + s.mul1.l0) (s.v0.l1 + s.mul0.l1) (s.v0.l0 + s.mul0.l0)
   let b := moduleReduction (s.v1.l3 + s.mul1.l3) (s.v1.l2 + s.mul1.l2) (s.v0.l3 + s.mul0.l3) (s.v0.l2 + s.mul0.l2)
   (a.1, a.2, b.1, b.2)
+
+/-- `PortableHash::finalize256` -/
+def finalize256 (x : State) : BitVec 64 × BitVec 64 × BitVec 64 × BitVec 64 := out256 (finalizeCommon 10 x)
 
 /-- `PortableHash::append` -/
 def append (x : State) (data : List (BitVec 8)) : State :=
